@@ -145,7 +145,7 @@ PATHS = [p for n in range(0, 4) for p in itertools.product('ab', repeat=n)]
 
 @bounded('E3', targets=['kopf._cogs.structs.diffs.diff', 'kopf._cogs.structs.diffs.reduce',
                         'kopf._core.intents.handlers.ResourceHandler.adjust_cause'],
-         props=['C04', 'C15', 'C03', 'C14', 'C17', 'C18'],
+         props=['C04', 'C15', 'C03', 'C14', 'C17', 'C18', 'C05'],
          clauses=['apply_diff_yields_new', 'empty_iff_equivalent', 'items_exact', 'reduce_is_diff_of_resolved',
                   'reduce_applies', 'adjust_cause_exact', 'adjust_cause_frame', 'pure'],
          universe='pairs (a,b) of JSON values: all of depth<=1 over keys {a,b} and leaves {None,0,1,"","x",[],[0],{}} '
@@ -1097,7 +1097,7 @@ def ref_marked_prefixes(keys):
 
 @bounded('E2b', targets=['kopf._cogs.configs.conventions.StorageKeyMarkingConvention._detect_marked_prefixes',
                          'kopf._cogs.configs.conventions.StorageStanzaCleaner.remove_annotations'],
-         props=['C04', 'C03', 'C16'], clauses=['detect_marked_prefixes', 'remove_annotations', 'remove_annotations_frame'],
+         props=['C04', 'C03', 'C16', 'C05'], clauses=['detect_marked_prefixes', 'remove_annotations', 'remove_annotations_frame'],
          universe='_detect_marked_prefixes: every subset of 12 annotation keys (no slash, several slashes, empty prefix/name, marker, known '
                   'prefix, subdomain, look-alike domain) as dict / list / frozenset (3 x 4096); remove_annotations: essences {no metadata, '
                   'metadata without annotations, every subset of 4 annotations} x every subset of 5 keys to remove (one not present) '
